@@ -1493,7 +1493,8 @@ class C12(Property):
                         if differs and structural:
                             zero = all(unrat(v) == 0 for row in rec['J'] for v in row)
                             rel = self.rel_coloring(case)
-                            if ntot == 1 and zero and case['kind'] == 'totals':
+                            if ntot == 1 and zero and case['kind'] == 'totals' and \
+                                    case.get('color_mode') != 'driver':
                                 code = 'colored_total_first_call_zero'
                             elif rel:
                                 code = 'colored_rel_step'
